@@ -1067,6 +1067,9 @@ func (r *Ref) idxAssign(n *Node) Val {
 		idx = n.Text
 	} else {
 		idx = r.evalU(n.Kids[0])
+		if IsErr(idx) { // an index that fails makes the assignment fail (it is not stored as a key)
+			return idx
+		}
 	}
 	cur, ok := r.lookup(n.Name)
 	if !ok {
@@ -1348,10 +1351,11 @@ func (r *Ref) builtin(n *Node) Val { //nolint:gocyclo // builtins
 			}
 			return &Map{P: append([]KV{}, x.P[1:]...), Big: x.Big && len(x.P)-1 > 4}
 		case string:
-			if len(x) <= 1 {
+			rs := []rune(x)
+			if len(rs) <= 1 { // one character, however many bytes
 				return Nil{}
 			}
-			return string([]rune(x)[1:])
+			return string(rs[1:])
 		}
 		return errf("rest() not supported")
 	}
